@@ -124,6 +124,11 @@ class FileServer(Resource, aiocoap.interfaces.ObservableResource):
         path = request.opt.uri_path
         if any("/" in p or p in (".", "..") for p in path):
             raise InvalidPathError()
+        if any(p == "" for p in path[:-1]):
+            # A leading empty component would make the joined path absolute
+            # (and thus escape the root); only the trailing slash of
+            # directories is an empty component.
+            raise InvalidPathError()
 
         return self.root / "/".join(path)
 
